@@ -373,6 +373,12 @@ def run(ctx):
     n1 = r1(ctx)
     n3 = r3(ctx)
     r6(ctx)
+    # R7: the generator's "dangerous trailing context" diagnosis examines every NFA state and every accepting number of the
+    # DFA state it is given (loops over (array, count) parameter pairs cover exactly the array)
+    import genutil
+    ctc = ctx.flex.fn('check_trailing_context')
+    if ctc is None: rep.broken('check_trailing_context() not found in flex')
+    genutil.rule_param_array_loops(rep, ctx.flex, 'C06.R7', [ctc])
     vs = ctx.variants()
     rep.require(len(vs) >= 100, 'only %d scanner variants compiled to IR' % len(vs))
     n2 = 0; used = 0; backs = set()
@@ -386,6 +392,7 @@ def run(ctx):
     rep.floor('C06.R1', 4, "two productions, bol_needed, ntod's one read of scbol[]")
     rep.floor('C06.R2', 1200, '>=17 rule arms + yyinput + flush + scan_buffer in each of >=60 variants with ^ rules')
     rep.floor('C06.R3', 1, "the re '$' production")
+    rep.floor('C06.R7', 2, 'the two loops of check_trailing_context')
     rep.floor('C06.R6', 2, "the productions 're2 re' and re '$' force varlength after a | action")
     rep.undecided += ['the split between head and trailing context of a match (value-level: headcnt/trailcnt arithmetic and the DFA)',
                       'competition between anchored and unanchored rules (C01)',
